@@ -208,15 +208,22 @@ def run(chk, repo, tier):
     rets_r = [p for p in returns(rp) if not (isinstance(p.ret, Poly) and p.ret.is_zero())]
     okt = okl = False
     det = ''
+    # m, n inside R are int(abs(.)) of the arguments
+    mm, nn = nf.app('abs', S('m')), nf.app('abs', S('n'))
+
+    def even_case(v):
+        """On the non-zero path n-m is even, so floor((n-m)/2) and floor((n+m)/2) are exact halves."""
+        mapping = {}
+        for a in nf.value_atoms(v):
+            if is_app(a, 'floor') and isinstance(a[2][0], Poly) and a[2][0] in ((nn - mm) / 2, (nn + mm) / 2):
+                mapping[a] = a[2][0]
+        return nf.subst_value(v, mapping) if mapping else v
     for p in rets_r:
         for lp in p.state.loops:
             if lp['func'] != fr.key:
                 continue
-            it = lp['iter']
-            ia = it.single_atom() if isinstance(it, Poly) else None
-            # m, n inside R are int(abs(.)) of the arguments
-            mm, nn = nf.app('abs', S('m')), nf.app('abs', S('n'))
-            okl = ia is not None and is_app(ia, 'range') and len(ia[2]) == 1 and ia[2][0] == HALF(nn - mm) + 1
+            cnt = nf.iter_count(lp['iter']) if isinstance(lp['iter'], (Poly, Tup)) else None
+            okl = cnt is not None and even_case(cnt) == (nn - mm) / 2 + 1
             for bs in lp['states']:
                 for e in bs.events[lp['n_pre_events']:]:
                     if e.kind == 'write' and e.data.get('how') == 'augassign' and e.data.get('op') == 'add':
@@ -225,10 +232,10 @@ def run(chk, repo, tier):
                             continue
                         kk = Poly.atom(k[0])
                         fact = lambda x: nf.app('factorial', x)
-                        want = nf.app('pow', C(-1), kk) * fact(nn - kk) / (fact(kk) * fact(HALF(nn + mm) - kk) *
-                                                                           fact(HALF(nn - mm) - kk)) * \
+                        want = nf.app('pow', C(-1), kk) * fact(nn - kk) / (fact(kk) * fact((nn + mm) / 2 - kk) *
+                                                                           fact((nn - mm) / 2 - kk)) * \
                             nf.app('pow', S('rho'), nn - 2 * kk)
-                        okt = e.data['value'] == want
+                        okt = even_case(nf.strip_apps(e.data['value'], ('cast', 'float'))) == want
                         det = f'summand {fmt(e.data["value"])[:260]}'
     chk.ob('C11-f', 'N-formula', fr.key, 'summand = (-1)^k (n-k)! / (k! ((n+m)/2-k)! ((n-m)/2-k)!) rho^(n-2k)', okt, det, fr.loc())
     chk.ob('C11-f', 'N-formula', fr.key, 'k runs over 0 .. (n-m)/2', okl, '', fr.loc())
